@@ -31,6 +31,7 @@ ASSUMPTIONS = ['bare multisig inputs are not a library input type (parse side is
                'legacy digests for non-ALL hash types are not demanded by the statement']
 
 K_SEGWIT_NONE_SINGLE = 'C01/bip143/hashoutputs-none-single-swapped'
+K_P2PK_RESIGN = 'C01/resign/p2pk-scriptsig-not-refreshed'
 
 REG = {}          # (txid display hex, n) -> prevout dict
 STATE = {'armed': True, 'col': None}
@@ -215,6 +216,11 @@ def run_case(case, col):
                           {'raw': raw.hex()[:2000], 'lib_verify': libv}, 'valid spend of %s' % po['spk'].hex())
     if not libv:
         col.violation(None, 'library verify() is False for a transaction it signed with the right keys', case, libv, True)
+    # (4) change committed fields on the SAME object and sign again: every digest must follow the new field values
+    #     (state kept between signing passes - caches, stale scripts - shows up here)
+    if not big:
+        case2 = dict(case, _first_scripts={k: i['script'] for k, i in enumerate(p['ins'])})
+        resign_after_modification(t, spec, flow, rnd, col, case2)
     # (1b) direct digests for all hash types on every input (legacy: ALL only)
     for idx, inp in enumerate(spec['ins'][:8]):
         po = REG[(inp['txid'], inp['n'])]
@@ -225,6 +231,55 @@ def run_case(case, col):
             except Exception as e:
                 col.violation(None, 'signature_hash(%d, %#x) raised %r' % (idx, ht, e), case, repr(e), None)
     STATE['armed'] = False
+
+
+def resign_after_modification(t, spec, flow, rnd, col, case):
+    network = spec['network']
+    mods = ['out_value', 'locktime', 'sequence', 'out_script']
+    rnd.shuffle(mods)
+    for mod in mods[:2]:
+        try:
+            if mod == 'out_value':
+                k = rnd.randrange(len(t.outputs))
+                t.outputs[k].value = t.outputs[k].value - 1 if t.outputs[k].value > 0 else t.outputs[k].value + 1
+            elif mod == 'locktime':
+                t.locktime = (t.locktime + 1) & 0xffffffff
+            elif mod == 'sequence':
+                k = rnd.randrange(len(t.inputs))
+                t.inputs[k].sequence = (t.inputs[k].sequence ^ 2) & 0xffffffff
+            else:
+                k = rnd.randrange(len(t.outputs))
+                ls = bytearray(t.outputs[k].lock_script)
+                if len(ls) > 3:
+                    ls[-2] ^= 1
+                    t.outputs[k].lock_script = bytes(ls)
+            if flow == 'all' and rnd.random() < 0.5:
+                t.sign(replace_signatures=True)
+            else:
+                for idx, inp in enumerate(spec['ins']):
+                    t.sign(txgen.lib_keys(inp, network), index_n=idx, replace_signatures=True)
+            raw = t.raw()
+            libv = t.verify()
+        except Exception as e:
+            col.violation(None, 're-signing after changing %s raised %r' % (mod, e), dict(case, mod=mod), repr(e), 'signed transaction')
+            return
+        col.probe('resign_check')
+        try:
+            p = rtx.parse(raw)
+        except Exception as e:
+            col.violation(None, 'independent parser cannot read raw() after re-signing: %r' % (e,), dict(case, mod=mod), raw.hex()[:400], None)
+            return
+        for idx, inp in enumerate(spec['ins']):
+            po = REG[(inp['txid'], inp['n'])]
+            r = rtx.verify_input(p, idx, po['spk'], po['amount'])
+            if not r.ok:
+                # narrow: only P2PK inputs, and the scriptSig still holds exactly the signature of the first signing pass
+                key = K_P2PK_RESIGN if (inp['kind'] == 'p2pk' and p['ins'][idx]['script'] == case.get('_first_scripts', {}).get(idx)) else None
+                col.violation(key, 'after changing %s and signing again, input %d (%s) is not a valid spend of its prevout: %s (library verify()=%s)'
+                              % (mod, idx, inp['kind'], r.reason, libv), {k: v for k, v in dict(case, mod=mod).items() if not k.startswith('_')},
+                              {'raw': raw.hex()[:1500]}, 'valid spend')
+                if key is None:
+                    break
 
 
 def replay(case, col):
@@ -246,7 +301,7 @@ def plan(tier, seed, scale=1.0):
     nshard = 16
     n = int((80000 if thorough else 1600) * scale)
     return [{'shard': i, 'nshard': nshard, 'n_tx': n // nshard, 'max_n': 15 if thorough else 4,
-             'big': (i < 6) if thorough else (i == 0)} for i in range(nshard)]
+             'big': (i < 12) if thorough else (i < 3)} for i in range(nshard)]
 
 
 def run_shard(spec, col):
@@ -257,6 +312,7 @@ def run_shard(spec, col):
     col.require('digest_probe_legacy', 1)
     col.require('input_spend_check', 10)
     col.require('hashtype_probe', 10)
+    col.require('resign_check', 5)
     rnd = random.Random('%s-%d-%d' % (ID, spec['seed'], spec['shard']))
     for k in range(spec['n_tx']):
         max_n = spec['max_n'] if rnd.random() < 0.15 else 4
@@ -267,8 +323,8 @@ def run_shard(spec, col):
         run_case({'spec': s, 'flow': FLOWS[k % 3], 'rseed': rnd.getrandbits(32)}, col)
     if spec.get('big'):
         sh = spec['shard']
-        variants = [(253, 2, ['p2pkh']), (2, 253, ['p2wpkh']), (300, 252, ['p2wpkh', 'p2pkh']), (1, 300, ['p2sh_ms']),
-                    (254, 1, ['p2sh_p2wpkh']), (252, 254, ['p2pkh_u', 'p2wsh_ms'])]
+        variants = [(253, 2, ['p2pkh']), (2, 253, ['p2wpkh', 'p2pkh']), (1, 300, ['p2sh_p2wsh_ms']), (300, 252, ['p2wpkh', 'p2pkh']),
+                    (254, 1, ['p2sh_p2wpkh']), (252, 254, ['p2pkh_u', 'p2wsh_ms']), (2, 253, ['p2sh_p2wpkh']), (1, 300, ['p2sh_ms'])]
         n_in, n_out, kinds = variants[sh % len(variants)]
         s = txgen.gen_spec(rnd, n_in=n_in, n_out=n_out, kinds=kinds, max_n=2, out_kinds=['p2pkh', 'p2wpkh', 'p2sh', 'p2wsh'])
         run_case({'spec': s, 'flow': 'all', 'rseed': 1}, col)
